@@ -1004,6 +1004,10 @@ class GraphProcessor:
         used_values = [value for i, value in enumerate(used_values) if i not in self._fixed_values]
         is_active = [is_act for i, is_act in enumerate(is_active) if i not in self._fixed_values]
 
+        # Hand out an independent instance: the graphs held in the caches must not be modified by the caller
+        if graph_instance is not None:
+            graph_instance = graph_instance.copy()
+
         return graph_instance, used_values, is_active
 
     def _encode_connection_choice(self, connection_choice_node: ConnectionChoiceNode):
